@@ -258,12 +258,12 @@ func c19PresenceGuards(c *cx, f *eng.Fn) {
 		}
 		split(is.Cond)
 		for _, a := range conj {
-			be, ok := a.(*ast.BinaryExpr)
-			if !ok || be.Op != token.NEQ || f.Norm(be.Y, nil) != "nil" {
+			px, ok := nilCompare(f, a, token.NEQ)
+			if !ok {
 				continue
 			}
-			x := f.Norm(be.X, nil)
-			if _, isPtr := f.Info().TypeOf(be.X).Underlying().(*types.Pointer); !isPtr || !strings.HasPrefix(x, "recv.") {
+			x := f.Norm(px, nil)
+			if _, isPtr := f.Info().TypeOf(px).Underlying().(*types.Pointer); !isPtr || !strings.HasPrefix(x, "recv.") {
 				continue
 			}
 			bad := false
